@@ -6,10 +6,15 @@
   functor (into every partial strict monoidal algebra `SMC`), exact refusal for adjacent moves,
   three-outcome theorem for all `(i, j)` (never an axiom error), exact index refusal, boxes are
   permuted by adjacent transpositions.
-  and the closed form of the box list after a general move (`interchange_move_spec`).
+  and the closed form of the box list after a general move (`interchange_move_spec`);
+  an adjacent move can always be taken back: the opposite request succeeds under both preferences
+  (`interchange_adjacent_reversible`) and under one of them restores the receiver field for field
+  (`interchange_adjacent_undo`).  (After a longer move a single preference may route a box without
+  inputs/outputs differently and be refused half way: no theorem, the check only counts it.)
 -/
 import Proofs.Move
 import Proofs.Foliate
+import Proofs.InterchangeBack
 
 namespace DV.C05
 open DV
@@ -51,6 +56,18 @@ theorem interchange_adjacent_refusal (d : Diagram) (i : Nat) (left : Bool) (hd :
     ((∃ d', d.interchangeAdj i left = .ok d') ↔ freeAt d i) ∧
     (¬ freeAt d i → d.interchangeAdj i left = .error .interchanger) :=
   Diagram.interchangeAdj_ok_iff hd hi
+
+/-- An adjacent move can be taken back: the opposite request on the result is accepted under both
+    preferences (the neighbour is still unwired to the box that moved). -/
+theorem interchange_adjacent_reversible (d d' : Diagram) (i : Nat) (left left' : Bool) (hd : d.WF)
+    (h : d.interchangeAdj i left = .ok d') : ∃ d'', d'.interchangeAdj i left' = .ok d'' :=
+  Diagram.interchangeAdj_back_ok hd h left'
+
+/-- ... and under one of the two preferences it gives back the receiver exactly (all five fields,
+    i.e. the offset bookkeeping of the move is undone). -/
+theorem interchange_adjacent_undo (d d' : Diagram) (i : Nat) (left : Bool) (hd : d.WF)
+    (h : d.interchangeAdj i left = .ok d') : ∃ left', d'.interchangeAdj i left' = .ok d :=
+  Diagram.interchangeAdj_undo hd h
 
 /-- For in-range `(i, j)` there are two outcomes only: a diagram or an interchanger error
     (the run-time composition checks on layers never raise an axiom error). -/
@@ -108,5 +125,17 @@ example : okWith ((Expr.mk [x, x] [y, y, y] [f, g] [0, 1]).interchange 0 1 false
 example : isErr ((Expr.mk [x] [] [g, h] [0, 0]).interchange 0 1 false).eval .interchanger = true := by
   decide
 example : isErr ((Expr.mk [x] [] [g, h] [0, 0]).interchange 0 2 false).eval .index = true := by decide
+-- moving back: a state `u` right of the wire an effect `e` consumes; after the exchange `e` (no
+-- output) and `u` (no input) sit at the same offset, so the way back is ambiguous: the left
+-- preference restores the receiver exactly, the default preference is accepted as well but puts
+-- `u` on the other side (offsets [0, 1] instead of [1, 0])
+private def u : Box := { name := "u", dom := [], cod := [y] }
+private def e : Box := { name := "e", dom := [x], cod := [] }
+example : okWith ((Expr.mk [x] [y] [u, e] [1, 0]).interchange 0 1 false).eval
+    (fun d => d.boxes == [e, u] && d.offsets == [0, 0]) = true := by decide
+example : (((Expr.mk [x] [y] [u, e] [1, 0]).interchange 0 1 false).interchange 1 0 true).eval
+    = (Expr.mk [x] [y] [u, e] [1, 0]).eval := by decide
+example : okWith (((Expr.mk [x] [y] [u, e] [1, 0]).interchange 0 1 false).interchange 1 0 false).eval
+    (fun d => d.boxes == [u, e] && d.offsets == [0, 1]) = true := by decide
 
 end DV.C05
